@@ -229,7 +229,9 @@ def compile_spec(sp, env):
         return glom.Spec(compile_spec(sp['frame'], env))
     if 'first' in sp:       # the key of First / Iter().first, as a tuple step (run on the items of the list)
         k = compile_spec(sp['first'], env)
-        return (env['ok'], glom.First(k)) if env['first_style'](sp) else (env['ok'],) + glom.Iter().first(k)
+        import glom.streaming
+        return ((env['ok'], glom.streaming.First(k, default=0)) if env['first_style'](sp)
+                else (env['ok'],) + glom.Iter().first(k, default=0))
     if 'coal' in sp:
         kw = {}
         if sp.get('skip') is not None:
